@@ -58,7 +58,7 @@ def contract_groups(fnlist, loops, harness, srcs, prefix, callees=None, **kw):
             out.append(G("%s.%s%s" % (prefix, fn, ("." + v) if v else ""), harness, "h_" + fn, srcs,
                          enforce=[(fn, c)], loops=used or None, dfcc=True, level="P", native=False, fn=[fn],
                          note="contract %s: exact-size buffers, frame, termination, result range, ASSERT-freedom; symbolic n" % c,
-                         timeout=kw.get("timeout", 300)))
+                         timeout=kw.get("timeout", 1200)))
     return out
 GROUPS = []
 GROUPS += contract_groups(
